@@ -1,0 +1,9 @@
+//go:build !verif
+
+package build
+
+import "github.com/thought-machine/please/src/core"
+
+// verifOp marks a filesystem operation of the build step for the verification harness; without the
+// "verif" build tag it is an empty function that the compiler inlines away.
+func verifOp(*core.BuildTarget, string, string) {}
